@@ -47,6 +47,11 @@ impl FrameAckQueue {
         self.receive_window.base_id()
     }
 
+    #[cfg(feature = "uflow_verif")]
+    pub fn verif_len(&self) -> usize {
+        self.entries.len()
+    }
+
     pub fn resynchronize(&mut self, sender_next_id: u32) {
         self.receive_window.advance(sender_next_id);
     }
